@@ -62,5 +62,14 @@ type subdomain struct {
 }
 
 func (s subdomain) match(o string) bool {
-	return len(o) >= len(s.prefix)+len(s.suffix) && strings.HasPrefix(o, s.prefix) && strings.HasSuffix(o, s.suffix)
+	if len(o) <= len(s.prefix)+len(s.suffix) || !strings.HasPrefix(o, s.prefix) || !strings.HasSuffix(o, s.suffix) {
+		return false
+	}
+	// What stands for the "*" must be one or more non-empty host labels and nothing else
+	for _, label := range strings.Split(o[len(s.prefix):len(o)-len(s.suffix)], ".") {
+		if label == "" || strings.ContainsAny(label, "/?#@\\:*[] ") {
+			return false
+		}
+	}
+	return true
 }
